@@ -121,6 +121,11 @@ Definition qconn_step (c : qconn) (s : qstep) : qconn * cout :=
     else ({| q_opened := true; q_mtu := q_mtu c; q_from := q_from c; q_to := q_to c ++ [truncate (q_mtu c) f] |}, ONone)
   end.
 
+(* ---- BaseConnection.send(payload): refused when closed; otherwise the payload is handed to specific_send exactly once and
+   whatever specific_send raises (after it has written the frame) goes to the caller: no second attempt ---------------- *)
+Definition base_send (opened : bool) (payload : bytes) (fault : Z) : list bytes * Z :=
+  if negb opened then ([], 8) else ([payload], fault).
+
 (* ---- correspondence entry points -------------------------------------------------------------------------------------- *)
 Definition enc_cout (o : cout) : list Z :=
   match o with ONone => [0] | OFrame f => 1 :: enc_bytes f | OTimeout => [2] | ORaises => [3] end.
@@ -164,5 +169,7 @@ Definition entry_conn (e : Z) (a : list Z) (b : list bytes) : list Z :=
   else if e =? 1602 then
     let '(c, outs) := qconn_run {| q_opened := false; q_mtu := hd 0 a; q_from := []; q_to := [] |} (decode_qsteps (List.tl a) b) in
     flat_map enc_cout outs ++ [enc_bool (q_opened c)] ++ enc_list enc_bytes (q_to c)
+  else if e =? 1603 then
+    let '(w, err) := base_send (hd 0 a =? 1) (hd [] b) (nth 2 a 0) in enc_list enc_bytes w ++ [err]
   else if e =? 1609 then [0]    (* real-socket measurements: zero problems expected *)
   else [-999].
